@@ -83,6 +83,18 @@ theorem C16_dispose (errs : List Bool) (n : Nat) (hn : 1 ≤ n) (s : Schedule) :
     holdsD errs (dObs (dFinal errs n s)) = true :=
   holdsD_final errs n hn s
 
+/-- Components that are "the latch plus background goroutines" (memory storage, SessionManager,
+tunnel manager): for every schedule of `n ≥ 1` closers the component is closed and each of its
+clean handlers (which stop the goroutines) ran exactly once. That the goroutines are really
+gone is observed by the harness (`leak`). -/
+theorem C16_manager (errs : List Bool) (n : Nat) (hn : 1 ≤ n) (s : Schedule) :
+    holdsM (mObs (dFinal errs n s)) = true := by
+  have h := C16_dispose errs n hn s
+  simp only [holdsD, Bool.and_eq_true, beq_iff_eq] at h
+  obtain ⟨⟨⟨h1, _⟩, h3⟩, _⟩ := h
+  simp only [dObs] at h1 h3
+  simp [holdsM, mObs, h1, h3]
+
 /-- At every moment of every schedule no handler has run twice. -/
 theorem C16_dispose_safety (errs : List Bool) (n : Nat) (s : Schedule) :
     ∀ x ∈ (run (dProg errs) s (dInit errs n)).sh.runs, x ≤ 1 := by
